@@ -83,6 +83,15 @@ def t_guarded(s: float, e: float, k: float) -> float:
     return v
 
 
+def t_frac(a: float, b: float) -> float:
+    return a / (a + b)
+
+
+def t_share(b: float, c: float, k: float) -> float:
+    """nested call whose first argument is a compound expression over a name (b) that is also the callee's second parameter"""
+    return k * t_frac(b * 1.0, c) + 0.25 * t_frac(c + b, b * 2.0)
+
+
 def t_local(s: float, k: float) -> float:
     a = s * s
     b = a + k
@@ -162,5 +171,5 @@ def u_exp(s: float, k: float) -> float:
     return k * math.exp(-s)
 
 
-RATES = {1: [t_const], 2: [t_ma1, t_cond, t_chain, t_elif, t_nested, t_local, t_time, t_cap], 3: [t_ma2, t_mm, t_inh, t_hill, t_nestif, t_guarded], 4: [t_rev]}
+RATES = {1: [t_const], 2: [t_ma1, t_cond, t_chain, t_elif, t_nested, t_local, t_time, t_cap], 3: [t_ma2, t_mm, t_inh, t_hill, t_nestif, t_guarded, t_share], 4: [t_rev]}
 UNTRANSLATABLE = [u_loop, u_andor, u_aug, u_exp]
